@@ -17,11 +17,79 @@ from .sym import NotEncodable
 from .common import SEED
 
 
+def _contains_symscalar(x):
+    from .engine import SymScalar
+    if isinstance(x, SymScalar):
+        return True
+    if isinstance(x, (list, tuple)):
+        return any(_contains_symscalar(y) for y in x)
+    return False
+
+
+_ORIG_TENSOR = torch.tensor
+_ORIG_AS_TENSOR = torch.as_tensor
+
+
+def _sym_tensor_factory(orig):
+    """torch.tensor([... SymScalar ...]) keeps the scalars symbolic (python-level stub, checker process only)"""
+    def f(data, *args, **kwargs):
+        from .engine import SymScalar, from_arr
+        import numpy as np
+        if _contains_symscalar(data):
+            def strip(x):
+                if isinstance(x, SymScalar):
+                    return x.v
+                if isinstance(x, (list, tuple)):
+                    return [strip(y) for y in x]
+                if isinstance(x, SymTensor):
+                    if x.dim() == 0:
+                        return x.arr().reshape(-1)[0]
+                    return [strip(y) for y in x]
+                if isinstance(x, torch.Tensor):
+                    return x.tolist()
+                return x
+            raw = strip(data)
+            shape = []
+            y = raw
+            while isinstance(y, list):
+                shape.append(len(y))
+                y = y[0] if y else None
+            flat = np.empty(int(np.prod(shape)) if shape else 1, dtype=object)
+
+            def fill(x, out):
+                if isinstance(x, list):
+                    for z in x:
+                        fill(z, out)
+                else:
+                    out.append(x)
+            lst = []
+            fill(raw, lst)
+            for i, v in enumerate(lst):
+                flat[i] = v
+            dtype = kwargs.get("dtype")
+            if dtype is None:
+                if any(isinstance(v, float) or (isinstance(v, S.Poly) and not v.is_int) or isinstance(v, (S.SqrtV,)) for v in lst):
+                    dtype = torch.float32
+                elif all(isinstance(v, bool) or isinstance(v, (S.Aff, S.BX)) for v in lst) and any(isinstance(v, bool) for v in lst) and not any(type(v) is int for v in lst):
+                    dtype = torch.bool
+                else:
+                    dtype = torch.int64
+            return from_arr(flat.reshape(shape) if shape else flat.reshape(()), dtype, tuple(shape))
+        return orig(data, *args, **kwargs)
+    return f
+
+
 def sym_paths(fn, assumptions=(), tally=None, max_paths=100000, timeout_ms=60000):
     """run fn() under the symbolic mode on every feasible path; returns [(ctx, result)]"""
     def wrapped(ctx):
-        with SymMode():
-            return fn(ctx)
+        torch.tensor = _sym_tensor_factory(_ORIG_TENSOR)
+        torch.as_tensor = _sym_tensor_factory(_ORIG_AS_TENSOR)
+        try:
+            with SymMode():
+                return fn(ctx)
+        finally:
+            torch.tensor = _ORIG_TENSOR
+            torch.as_tensor = _ORIG_AS_TENSOR
     return explore(wrapped, assumptions, tally, max_paths, timeout_ms)
 
 
